@@ -153,7 +153,7 @@ impl Scenario for Batch {
         0
     }
     fn describe(&self) -> String {
-        "batch driver: after a default-schedule setup (two channels, a consumer on each) the I/O thread is held at its gate while every ordered subset (up to 4, thorough 5) of {server Connection.Close, server Channel.Close(1), one channel-0 request (open_channel | listen_for_connection_blocked | Connection::close), a publish / call / publish+call on channel 1, a call on channel 2} is made pending in that order; one poll then handles them as one batch; also with the transport stalled so that the closing state spans several batches. Oracle: no panic, every request returns, Connection::close reports the server's close, and all results equal those of the same events delivered in the same order in separate batches".into()
+        "(Channel::close returns Ok only if the server's CloseOk for that channel was read.) batch driver: after a default-schedule setup (two channels, a consumer on each) the I/O thread is held at its gate while every ordered subset (up to 4, thorough 5) of {server Connection.Close, server Channel.Close(1), one channel-0 request (open_channel | listen_for_connection_blocked | Connection::close), a publish / call / publish+call on channel 1, a call on channel 2} is made pending in that order; one poll then handles them as one batch; also with the transport stalled so that the closing state spans several batches. Oracle: no panic, every request returns, Connection::close reports the server's close, and all results equal those of the same events delivered in the same order in separate batches".into()
     }
     fn build(&self, p: &Value) -> Built {
         let mut broker = StdBroker::new(Handshake::default());
@@ -417,6 +417,22 @@ impl Scenario for Batch {
                     if written < accepted {
                         v.push(("batch:accepted-output-not-written".into(), format!("channel {}: the I/O thread had accepted {} bytes of requests before the connection's close point but only {} reached the wire; events {:?}", chan, accepted, written, events)));
                     }
+                }
+            }
+        }
+        // "takes effect before the close or fails with the close's error", for Channel::close: it
+        // has taken effect when the server confirmed it - a Channel::close that returns Ok without
+        // a Channel.CloseOk for that channel having been read met the server's close and kept quiet
+        {
+            use amq_protocol::frame::AMQPFrame;
+            use amq_protocol::protocol::{channel as pchannel, AMQPClass};
+            use vh::sim::world::IoEvent;
+            for (a, chan) in [("A1", 1u16), ("A2", 2u16)] {
+                let log = o.logs.get(a).cloned().unwrap_or_default();
+                let n_ok = log.iter().filter(|l| l.starts_with("chclose -> Ok")).count();
+                let n_close_ok = o.io_events.iter().filter(|e| matches!(e, IoEvent::Frame(AMQPFrame::Method(c, AMQPClass::Channel(pchannel::AMQPMethod::CloseOk(_)))) if *c == chan)).count();
+                if n_ok > n_close_ok {
+                    v.push(("batch:channel-close-ok-without-close-ok".into(), format!("actor {} (channel {}): Channel::close returned Ok {} time(s) but the server's CloseOk for that channel was read {} time(s); events {:?}; log {:?}", a, chan, n_ok, n_close_ok, events, log)));
                 }
             }
         }
